@@ -170,8 +170,8 @@ def _fold(ents_sorted, create_ent):
     states = [str(ro)]
     failing = []
     _fold.elem_warnings = []          # per message: categories of the element-level warnings
-    for e in ents_sorted:
-        m = MT.MosFile.from_string(e['text'] if e['text'] is not None else e['data'])
+    msgs = [MT.MosFile.from_string(e['text'] if e['text'] is not None else e['data']) for e in ents_sorted]
+    for e, m in zip(ents_sorted, msgs):
         with warnings.catch_warnings(record=True) as w:
             warnings.resetwarnings()
             warnings.simplefilter('always')
@@ -269,7 +269,10 @@ def do_batch(run, step):
             elif str(o1) != str(o2) or type(o1) is not type(o2):
                 add('C18.reader', 'two restores of one reader differ')
             ent = next(e for e in others if e['mid'] == r.message_id)
-            ref = MT.MosFile.from_string(ent['data'])
+            try:
+                ref = MT.MosFile.from_string(ent['data'])
+            except Exception:    # noqa
+                continue
             if str(o1) != str(ref) or type(o1) is not type(ref):
                 add('C18.reader', 'restored object differs from the stored message %r' % r.message_id)
         except StopIteration:
@@ -278,7 +281,11 @@ def do_batch(run, step):
             add('C18.reader', 'restoring a reader raised %s: %s' % (type(e).__name__, e))
 
     # ---- C09: merge == manual fold -------------------------------------------------------------
-    states, failing, crash = _fold(others, create_ent)
+    try:
+        states, failing, crash = _fold(others, create_ent)
+    except Exception:    # noqa - a message of the accepted collection cannot be parsed on its own: no reference to compare with
+        run.stats['batch.no-reference'] += 1
+        return
     if len(failing) >= 3:
         run.probes['>=3-failing-in-one-merge'] += 1
     exc_m, n_nsw = _merge(mc, strict)
